@@ -24,6 +24,7 @@ type full struct {
 	set                               func(k string, v *val)
 	setIfAbsent                       func(k string, v *val)
 	setAndGetRemoved                  func(k string, v *val) []*val
+	removedHistory                    func() []string // re-reads every slice SetAndGetRemoved has returned so far
 	get, peek                         func(k string) (*val, bool)
 	exist                             func(k string) bool
 	del                               func(k string) bool
@@ -36,6 +37,7 @@ type full struct {
 }
 
 func fromCache(c *cache.LRUCache) *full {
+	var raws [][]cache.Value
 	toV := func(v cache.Value, ok bool) (*val, bool) {
 		if v == nil {
 			return nil, ok
@@ -47,8 +49,21 @@ func fromCache(c *cache.LRUCache) *full {
 		setIfAbsent: func(k string, v *val) { c.SetIfAbsent(k, v) },
 		setAndGetRemoved: func(k string, v *val) []*val {
 			var o []*val
-			for _, x := range c.SetAndGetRemoved(k, v) {
+			raw := c.SetAndGetRemoved(k, v)
+			raws = append(raws, raw)
+			for _, x := range raw {
 				o = append(o, x.(*val))
+			}
+			return o
+		},
+		removedHistory: func() []string {
+			var o []string
+			for _, raw := range raws {
+				var l []*val
+				for _, x := range raw {
+					l = append(l, x.(*val))
+				}
+				o = append(o, ids(l))
 			}
 			return o
 		},
@@ -76,6 +91,7 @@ func fromCache(c *cache.LRUCache) *full {
 }
 
 func fromTiny(c *tiny.LRUCache) *full {
+	var raws [][]interface{}
 	toV := func(v interface{}, ok bool) (*val, bool) {
 		if v == nil {
 			return nil, ok
@@ -87,8 +103,21 @@ func fromTiny(c *tiny.LRUCache) *full {
 		setIfAbsent: func(k string, v *val) { c.SetIfAbsent(k, v) },
 		setAndGetRemoved: func(k string, v *val) []*val {
 			var o []*val
-			for _, x := range c.SetAndGetRemoved(k, v) {
+			raw := c.SetAndGetRemoved(k, v)
+			raws = append(raws, raw)
+			for _, x := range raw {
 				o = append(o, x.(*val))
+			}
+			return o
+		},
+		removedHistory: func() []string {
+			var o []string
+			for _, raw := range raws {
+				var l []*val
+				for _, x := range raw {
+					l = append(l, x.(*val))
+				}
+				o = append(o, ids(l))
 			}
 			return o
 		},
@@ -200,9 +229,10 @@ func (m *mlru) items() []string {
 }
 
 type st struct {
-	c    *full
-	m    *mlru
-	next int
+	c       *full
+	m       *mlru
+	next    int
+	removed []string // ids of every list SetAndGetRemoved returned, as they read at return time
 }
 
 func (s *st) newVal(size int) *val { s.next++; return &val{s.next, size} }
@@ -236,6 +266,14 @@ func mget(m *mlru, k string, touch bool) string {
 
 func after(s *st) string {
 	c, m := s.c, s.m
+	if len(s.removed) > 0 {
+		now := c.removedHistory()
+		for i := range s.removed {
+			if i < len(now) && now[i] != s.removed[i] {
+				return fmt.Sprintf("the list of removed values SetAndGetRemoved call #%d returned was [%s] when it returned and reads [%s] after a later operation (it aliases storage the cache keeps using)", i+1, s.removed[i], now[i])
+			}
+		}
+	}
 	if g, w := strings.Join(c.keys(), ","), strings.Join(m.keys(), ","); g != w {
 		return fmt.Sprintf("Keys() (most to least recent) = [%s], ideal LRU holds [%s]", g, w)
 	}
@@ -256,14 +294,29 @@ func after(s *st) string {
 }
 
 func key(s *st) string {
-	// complete observable state: order, weights, capacity.  Evictions is a pure accumulator.
+	// complete observable state: order, weights, capacity.  Evictions is a pure accumulator.  Results
+	// of earlier SetAndGetRemoved calls that the caller still holds are part of the state as well (they
+	// must stay valid): how many are outstanding and how long the last two were.
 	var b strings.Builder
+	n := len(s.removed)
+	fmt.Fprintf(&b, "held%d", min(n, 2))
+	for i := max(0, n-2); i < n; i++ {
+		fmt.Fprintf(&b, "/%d", strings.Count(s.removed[i], ",")+btoi(s.removed[i] != ""))
+	}
+	b.WriteString("|")
 	for _, e := range s.m.ents {
 		fmt.Fprintf(&b, "%s/%d,", e.k, e.w)
 	}
 	fmt.Fprintf(&b, "|%d|", s.m.capacity)
 	b.WriteString(strings.Join(s.c.keys(), ","))
 	return b.String()
+}
+
+func btoi(b bool) int {
+	if b {
+		return 1
+	}
+	return 0
 }
 
 func cmp(name, got, want string) (string, string) {
@@ -295,6 +348,7 @@ func fullOps(sizes []int, caps []int64) []seq.Op[*st] {
 					// the unit-size cache cannot evict on an in-place update; it reports nothing
 					want = nil
 				}
+				s.removed = append(s.removed, ids(got))
 				return cmp("SetAndGetRemoved", "removed["+ids(got)+"]", "removed["+ids(want)+"]")
 			}})
 		}
